@@ -553,6 +553,8 @@ impl C15 {
             // candidates of the same type that belong elsewhere
             let mut cands: Vec<(Pubkey, &'static str)> = Vec::new();
             if kind == Kind::Oracle {
+                // some empty address that is not this pool's oracle address
+                cands.push((scratch_key(salt, 6300 + i as u64), "an empty address instead of the pool's oracle address"));
                 for (wk, _) in decode::pools(l) {
                     let ok = ix::pda_oracle(&wk);
                     if ok != m.pubkey {
